@@ -55,6 +55,8 @@ def err_kind(exc) -> str:
     for klass in type(exc).__mro__:
         if klass.__name__ in ERR_KINDS:
             return ERR_KINDS[klass.__name__]
+    if type(exc).__name__ == "DrawsExhausted":   # scripted random source ran dry (model: FuelE)
+        return "FuelE"
     if isinstance(exc, UnicodeError):
         return "ValueE"
     return "OtherE"
@@ -318,7 +320,7 @@ def results_agree(ir, mr, strict):
         return norm(ir[1]) == norm(mr[1])
     if ir[0] == "err" and mr[0] == "err":
         if ir[1] == "Timeout" or mr[1] == "FuelE":
-            return ir[1] == "Timeout" and mr[1] == "FuelE"
+            return ir[1] in ("Timeout", "FuelE") and mr[1] == "FuelE"
         if ir[1] == "Crash":
             return False
         return (ir[1] == mr[1]) if strict else True
